@@ -1908,6 +1908,64 @@ def pm_gates():
             c5 = b.connect()
             b.open(c5).ka(c5).adv(1)
             out.append(b.tag("damp", "pmgate").build())
+    # (5) PM held right after approving OpenConfirm; the remote's KEEPALIVE (Established requested) and a stop
+    #     request both wait for it: whichever the PM takes first, the callbacks stay paired.  Run on one P as
+    #     well: the FSM then resumes only after the PM has gone on to serve the stop.
+    for first in DIRS:
+        for stop in ("deletePeer", "close"):
+            for onep in (False, True):
+                for rep in range(3 if onep else 1):
+                    g, k = "apv-%s" % first, (4 if first == "out" else 3)
+                    b = Sb("pmgate-apv-stop-%s-%s-%s%d" % (first, stop, "1p" if onep else "np", rep), [peer(gates=["%s#%d" % (g, k)], passive=(first == "in"))])
+                    b.start()
+                    c = b.dial_ok() if first == "out" else b.connect()
+                    b.open(c)
+                    b.steps.append(multi(step("send", conn=c, b=keepalive()), step(stop, peer="p1" if stop == "deletePeer" else ""),
+                                         step("yield"), step("release", peer="p1", call=g, w=k)))
+                    b.adv(1)
+                    out.append(b.tag("pmgate", "stop", *(["oneP"] if onep else [])).build())
+    # (6) PM held right after approving OpenConfirm of the outbound connection; an inbound connection is accepted
+    #     and the remote's KEEPALIVE arrives meanwhile: the PM then serves "new inbound connection", "outbound
+    #     Established" and the new FSM's first request in whichever order its select yields
+    for lid in ("10.0.0.1", "10.0.0.9"):
+        for rep in range(4):
+            b = Sb("pmgate-apv-inconn-%s-%d" % (lid, rep), [peer(gates=["apv-out#4"])], routerID=lid)
+            b.start()
+            co = b.dial_ok()
+            b.open(co)
+            ci = b.newconn()
+            b.steps.append(multi(step("connect", conn=ci, src="10.0.0.2:40000", dst="10.0.0.1:179"), step("send", conn=co, b=keepalive()),
+                                 step("yield"), step("release", peer="p1", call="apv-out", w=4)))
+            b.adv(1).upd(co).open(ci).adv(1)
+            out.append(b.tag("pmgate", "collision", *(["oneP"] if rep % 2 else [])).build())
+    # (7) PM held while it handles a damping error of one connection; the other connection fails too (its FSM
+    #     waits to report): both belong to one incident, the hold-down is 60 s and the next one 120 s
+    for first in DIRS:
+        for second in ("notif", "cease", "eof", "bad"):
+            g = "err-%s" % first
+            b = Sb("pmgate-err-both-%s-%s" % (first, second), [peer(gates=[g + "#1"], idleHold=sec(1))])
+            b.start()
+            cs = {"out": b.dial_ok(), "in": b.connect()}
+            o = "in" if first == "out" else "out"
+            b.notif(cs[first], 2, 2)                   # damping error in OpenSent: PM held
+            if second == "notif":
+                b.notif(cs[o], 3, 1)
+            elif second == "cease":
+                b.notif(cs[o], 6, 0)
+            elif second == "eof":
+                b.rclose(cs[o])
+            else:
+                b.send(cs[o], frame(7, []))
+            rel(b, g, 1)
+            b.advu(sec(60) - 1)
+            c3 = b.connect()
+            b.advu(1).adv(1)
+            c4 = b.dial_ok()
+            b.notif(c4, 2, 2)                          # second incident: 120 s
+            b.advu(sec(120) - 1).advu(1).adv(1)
+            c5 = b.dial_ok()
+            b.open(c5).ka(c5).adv(1)
+            out.append(b.tag("damp", "pmgate").build())
     return out
 
 
